@@ -17,6 +17,8 @@ def classify(f):
         sym = list(f['symptoms'])
         return dict(call=call, symptom='view:' + sym[0]), (f'after {call}: the implementation\'s maintained view(s) {", ".join(sym)} differ from the '
                                                            'function of the grid defined in coq/circuit/CViews.v')
+    if k == 'hang':
+        return dict(call=call, symptom='hang'), f'{call} (or reading the circuit after it) does not return: ' + str(f.get('detail'))
     if k == 'iteration_raised':
         return dict(call=call, symptom='accessor_raised'), f'after {call} iterating the circuit raises: ' + str(f.get('detail'))
     if k == 'internal_error':
